@@ -1,3 +1,54 @@
+/-
+  THE REFINEMENT: Layer A (`CachedModel/State.lean`) implements the specification `CachedProofs/Spec/Spec.lean`.
+
+    * `abs : State → S`           cell of `k` = `⟨e.value, e.expiry⟩` iff the store holds `e` for `k` with `e.soft = false`
+                                  (a soft-deleted entry is NO cell); `now`, `shut` copied.
+    * `Justified s ev k why`      the event (for the worker: the head command) that may be blamed for a cause.
+    * `refines`                   every step, every key: `∃ why, KeyStep … why (cell before) (cell after) ∧ Justified s ev k why`
+                                  (hypotheses `TtlInv s`, `QInv s`; `refines_reach`: none but reachability);
+      `refines_global`            clock: never backwards, moves only by a clock event; flag: sticky, raised only by `shutdown()`.
+    * `reads_agree`               `get` returns `(abs s).read k`, `multi_get` returns `(abs s).readMany ks`, `abs` unchanged.
+    * corollaries, each from `refines` / `refines_global` / `reads_agree` and the inversion lemmas of `KeyStep`
+      (`KeyStep.to_some`, `KeyStep.to_none`), without going back to the model:
+        `read_stable`, `read_stable_step`                         (which events can change a read at all: `mayChangeRead`)
+        `no_foreign_value`                                        C02
+        `delete_hides`                                            C04
+        `never_serves_expired`, `not_hidden_before_deadline`, `get_never_serves_expired`, `get_not_hidden_before_deadline`   C09
+        `no_loss_without_cause`                                   C03
+        `run_refines` (`KeyChain`), `KeyChain.needs_worker`       runs
+    * non-vacuity: every cause exhibited on a concrete run (section 9).
+
+  WHERE THE MODEL FORCED THE DESIGN (nothing is weakened silently; points 1, 2, 3, 6 have concrete witnesses in section 9):
+
+   1. An eighth cause, `deleted`.  "The worker's execution of a `Delete` command is `unchanged` for readers" is FALSE:
+      `delete(k)` queues `Delete(k)` also when `k` is absent (nothing to soft-mark).  History  put(k) called;
+      delete(k) called; worker applies the put (`installed`, readable — AFTER `delete(k)` returned); worker runs
+      `Delete(k)`: a readable cell disappears.  Cause `deleted`, justified by `Delete(k)` at the head of the queue.
+      (When the entry was soft-marked by the call, the worker's `Delete` is indeed `unchanged`.)
+   2. `put_or_update` rewrites DEAD entries in place (the known defect):
+        - soft-deleted entry: the store entry changes, the cell is `none` before and after: cause `unchanged`;
+        - expired, not yet swept entry (`soft = false`): this IS a cell (expired cells are cells; `S.read` hides them),
+          the step is `rewritten`; with a new deadline and NO value the old value becomes readable again.  Hence
+          `no_foreign_value` has a FOURTH disjunct (upsert of `k` carrying no value, on an expired cell holding `v`);
+          without it the statement is false: `no_foreign_value_resurrection`.
+   3. A put of a key whose entry is physically present (also soft-deleted or expired-unswept) is refused, by the call
+      (`keyAlreadyExists`) and again by the worker.  At this level that is `unchanged`: a put CALL never changes a cell,
+      and `installed` starts from `none`.  The specification says nothing about acknowledgements or about a put being
+      installed eventually (C05/C07/C12 do); it is an "only these changes, only for these causes" specification.
+   4. `Justified s ev k .unchanged` is not `True`: it states that a `delete(k)` call on a running cache never leaves a
+      readable cell as it was.  This is what makes `delete_hides` a corollary of `refines` (a pure "only these" theorem
+      cannot give a "must").
+   5. `Why.installed` / `Why.rewritten` carry the data of the request, so `KeyStep` fixes the new cell EXACTLY: value
+      put / value given or kept; deadline `now + ttl` / removed / kept (the frame lemma `step_key` does not state
+      deadlines: `workerPut_entry`, `clientUpsert_entry` below).  `KeyStep` also carries the clock: `now ≤ now'` for
+      `unchanged`, `now' = now` for every real change.
+   6. `multi_get` after `shutdown()` returns the EMPTY list, not one `none` per key: `S.readMany`.
+   7. `cleared` is used for every key when `shutdown()` completes, also keys without a cell (`c → none` for any `c`).
+   8. `evicted` is justified by ANY put at the head of the queue whose weight exceeds the free space
+      `s.adm.max - s.adm.used`; free space counts expired-unswept and soft-deleted entries as used
+      (`C03_counterexample_expired_unswept_still_charged`).
+  `Inv s` is not needed anywhere.
+-/
 import CachedProofs.Spec.Spec
 import CachedProofs.Lemmas.Frame
 import CachedProofs.Lemmas.StatsInv
@@ -380,5 +431,326 @@ theorem KeyStep.to_none {now now' : Nat} {why : Why} {x : Cell} (h : KeyStep now
   | expiredRemoved _ hn hx => exact ⟨hn, Or.inr (Or.inr (Or.inl ⟨rfl, hx⟩))⟩
   | evicted _ hn => exact ⟨hn, Or.inr (Or.inr (Or.inr (Or.inl rfl)))⟩
   | cleared _ hn => exact ⟨hn, Or.inr (Or.inr (Or.inr (Or.inr rfl)))⟩
+
+theorem KeyStep.expiredRemoved_inv {now now' : Nat} {c c' : Option Cell} (h : KeyStep now now' .expiredRemoved c c') :
+    ∃ x, c = some x ∧ c' = none ∧ x.expired now = true ∧ now' = now := by
+  cases h with
+  | expiredRemoved x hn hx => exact ⟨x, rfl, rfl, hx, hn⟩
+
+theorem KeyStep.hidden_inv {now now' : Nat} {c c' : Option Cell} (h : KeyStep now now' .hidden c c') : c' = none := by
+  cases h; rfl
+
+/-! ### 7. corollaries of `refines` / `reads_agree` -/
+
+/-- **read_stable** (abstract): cause `unchanged`, clock and flag as before — the read is the same. -/
+theorem read_stable {sp sp' : S} {k : Nat} (h : KeyStep sp.now sp'.now .unchanged (sp.cells k) (sp'.cells k))
+    (hn : sp'.now = sp.now) (hsh : sp'.shut = sp.shut) : sp'.read k = sp.read k := by
+  simp only [S.read, h.unchanged_eq, hn, hsh]
+
+/-- the events that may change what a read of `k` returns: `put_or_update(k)`, `delete(k)`, a worker step, a clock
+    move, `shutdown()`, a parked call continuing.  NOT among them: puts (of any key, they only queue a command),
+    operations on other keys, reads, the access consumer, SWEEPS (they remove only what was unreadable), polls. -/
+def mayChangeRead (k : Nat) : Ev → Bool
+  | .upsert _ k' _ _ _ _ => k' == k
+  | .delete _ k' => k' == k
+  | .worker => true
+  | .advance _ => true
+  | .shutdown _ => true
+  | .resume _ => true
+  | _ => false
+
+/-- **read_stable** (model): every other event leaves `read k` as it was. -/
+theorem read_stable_step {s s' : State} {ev : Ev} {o o' : Oracle} {out : Out} (ht : TtlInv s) (hq : QInv s)
+    (hs : step s ev o = .ok (s', out, o')) (k : Nat) (hev : mayChangeRead k ev = false) :
+    (abs s').read k = (abs s).read k := by
+  obtain ⟨_, hnow, _, hshut, _⟩ := refines_global hs
+  have hn : (abs s').now = (abs s).now := hnow (by intro d h; subst h; simp [mayChangeRead] at hev)
+  have hsh : (abs s').shut = (abs s).shut := hshut (by intro c h; subst h; simp [mayChangeRead] at hev)
+  obtain ⟨why, hks, hj⟩ := refines ht hq hs k
+  cases why with
+  | unchanged => exact read_stable hks hn hsh
+  | installed v ttl => obtain ⟨rfl, _⟩ := hj; simp [mayChangeRead] at hev
+  | rewritten v ttl rm => obtain ⟨c, w, rfl⟩ := hj; simp [mayChangeRead] at hev
+  | hidden => obtain ⟨c, rfl⟩ := hj; simp [mayChangeRead] at hev
+  | deleted => obtain ⟨rfl, _⟩ := hj; simp [mayChangeRead] at hev
+  | expiredRemoved =>
+    obtain ⟨x, hc, hc', hx, _⟩ := hks.expiredRemoved_inv
+    simp only [S.read, hc, hc', hx, if_true, ite_self]
+  | evicted => obtain ⟨rfl, _⟩ := hj; simp [mayChangeRead] at hev
+  | cleared => rcases hj with ⟨c, rfl⟩ | ⟨c, rfl, _⟩ <;> simp [mayChangeRead] at hev
+
+/-- **no_foreign_value** (C02).  A value read for `k` after a step was readable before, or is the value an upsert of
+    `k` carries, or the value of the put of `k` the worker applies — or (LAST disjunct, see the head of this file)
+    it is the value of an EXPIRED, not yet swept cell of `k` that an upsert of `k` WITHOUT a value brought back by
+    giving it a new deadline. -/
+theorem no_foreign_value {s s' : State} {ev : Ev} {o o' : Oracle} {out : Out} (ht : TtlInv s) (hq : QInv s)
+    (hs : step s ev o = .ok (s', out, o')) {k v : Nat} (h : (abs s').read k = some v) :
+    (abs s).read k = some v ∨
+    (∃ c w t rm, ev = .upsert c k (some v) w t rm) ∨
+    (ev = .worker ∧ ∃ ttl w, HeadPut s k v ttl w) ∨
+    (∃ c w t rm x, ev = .upsert c k none w t rm ∧ (abs s).cells k = some x ∧ x.value = v ∧
+      x.expired s.now = true) := by
+  obtain ⟨hsh', x', hc', hx', hv⟩ := (read_eq_some_iff _ _ _).mp h
+  obtain ⟨hle, _, hst, _, _⟩ := refines_global hs
+  have hsh : (abs s).shut = false := by
+    cases h0 : (abs s).shut with
+    | false => rfl
+    | true => rw [hst h0] at hsh'; cases hsh'
+  obtain ⟨why, hks, hj⟩ := refines ht hq hs k
+  rw [hc'] at hks
+  rcases hks.to_some with ⟨rfl, hc, _⟩ | ⟨v0, ttl, rfl, hc, rfl, _⟩ | ⟨c0, v0, ttl, rm, rfl, hc, rfl, _⟩
+  · exact Or.inl ((read_eq_some_iff _ _ _).mpr ⟨hsh, x', hc, expired_mono hle hx', hv⟩)
+  · obtain ⟨hev, w, hh⟩ := hj
+    dsimp only at hv
+    subst hv
+    exact Or.inr (Or.inr (Or.inl ⟨hev, ttl, w, hh⟩))
+  · obtain ⟨c, w, rfl⟩ := hj
+    cases v0 with
+    | some y =>
+      simp only [Option.getD_some] at hv
+      subst hv
+      exact Or.inr (Or.inl ⟨c, w, ttl, rm, rfl⟩)
+    | none =>
+      simp only [Option.getD_none] at hv
+      cases hx0 : c0.expired s.now with
+      | false => exact Or.inl ((read_eq_some_iff _ _ _).mpr ⟨hsh, c0, hc, hx0, hv⟩)
+      | true => exact Or.inr (Or.inr (Or.inr ⟨c, w, ttl, rm, c0, rfl, hc, hv, hx0⟩))
+
+/-- **delete_hides** (C04).  When `delete(k)` returns — whatever it returns, long before the worker sees the
+    command — a read of `k` reports absent. -/
+theorem delete_hides {s s' : State} {o o' : Oracle} {out : Out} {c k : Nat} (ht : TtlInv s) (hq : QInv s)
+    (hs : step s (.delete c k) o = .ok (s', out, o')) : (abs s').read k = none := by
+  obtain ⟨_, _, hst, _, _⟩ := refines_global hs
+  obtain ⟨why, hks, hj⟩ := refines ht hq hs k
+  cases why with
+  | unchanged =>
+    rcases hj c rfl with h | h
+    · exact read_shut _ _ (hst h)
+    · exact read_absent _ _ (by rw [hks.unchanged_eq]; exact h)
+  | hidden => exact read_absent _ _ hks.hidden_inv
+  | installed v ttl => cases hj.1
+  | rewritten v ttl rm => obtain ⟨_, _, h⟩ := hj; cases h
+  | deleted => cases hj.1
+  | expiredRemoved => cases hj
+  | evicted => cases hj.1
+  | cleared => rcases hj with ⟨_, h⟩ | ⟨_, h, _⟩ <;> cases h
+
+/-- **never_serves_expired** (C09): once the clock is past the cell's deadline a read reports absent, swept or not. -/
+theorem never_serves_expired (sp : S) (k : Nat) (c : Cell) (d : Nat) (hc : sp.cells k = some c)
+    (hd : c.deadline = some d) (hnow : sp.now > d) : sp.read k = none := by
+  simp [S.read, hc, Cell.expired, hd, hnow]
+
+/-- **not_hidden_before_deadline** (C09): up to and including the deadline (or without one) a read of a running cache
+    returns the cell's value. -/
+theorem not_hidden_before_deadline (sp : S) (k : Nat) (c : Cell) (hsh : sp.shut = false) (hc : sp.cells k = some c)
+    (hd : c.deadline = none ∨ ∃ d, c.deadline = some d ∧ sp.now ≤ d) : sp.read k = some c.value := by
+  rcases hd with hd | ⟨d, hd, hle⟩
+  · simp [S.read, hsh, hc, Cell.expired, hd]
+  · have : ¬ d < sp.now := by omega
+    simp [S.read, hsh, hc, Cell.expired, hd, this]
+
+/-- … through the API: what `get` answers in the model -/
+theorem get_never_serves_expired {s s' : State} {o o' : Oracle} {out : Out} {k d : Nat} {c : Cell}
+    (hs : step s (.get k) o = .ok (s', out, o')) (hc : (abs s).cells k = some c) (hd : c.deadline = some d)
+    (hnow : s.now > d) : out = .value none := by
+  rw [(reads_agree.1 k hs).1, never_serves_expired (abs s) k c d hc hd hnow]
+
+theorem get_not_hidden_before_deadline {s s' : State} {o o' : Oracle} {out : Out} {k : Nat} {c : Cell}
+    (hs : step s (.get k) o = .ok (s', out, o')) (hsh : s.shutting = false) (hc : (abs s).cells k = some c)
+    (hd : c.deadline = none ∨ ∃ d, c.deadline = some d ∧ s.now ≤ d) : out = .value (some c.value) := by
+  rw [(reads_agree.1 k hs).1, not_hidden_before_deadline (abs s) k c hsh hc hd]
+
+/-- **no_loss_without_cause** (C03).  A readable-or-expired cell of `k` disappears in one step only if `delete(k)` is
+    called, the worker runs a queued `Delete(k)`, the sweeper runs after the cell's deadline, the worker applies a put
+    that does not fit the free space, or `shutdown()` completes. -/
+theorem no_loss_without_cause {s s' : State} {ev : Ev} {o o' : Oracle} {out : Out} (ht : TtlInv s) (hq : QInv s)
+    (hs : step s ev o = .ok (s', out, o')) {k : Nat} {x : Cell} (hc : (abs s).cells k = some x)
+    (hc' : (abs s').cells k = none) :
+    (∃ c, ev = .delete c k) ∨
+    (ev = .worker ∧ s.worker = .running ∧ ∃ h q, s.queue = (.delete k, h) :: q) ∨
+    (ev = .sweep ∧ x.expired s.now = true) ∨
+    (ev = .worker ∧ ∃ k' v ttl w, HeadPut s k' v ttl w ∧ s.adm.max - s.adm.used < w) ∨
+    ((∃ c, ev = .shutdown c) ∨ ∃ c, ev = .resume c ∧ s.shutting = true ∧
+      (s.pend.get? c = some .shutdownCmd ∨ s.pend.get? c = some .shutdownBuf)) := by
+  obtain ⟨why, hks, hj⟩ := refines ht hq hs k
+  rw [hc, hc'] at hks
+  obtain ⟨_, rfl | rfl | ⟨rfl, hx⟩ | rfl | rfl⟩ := hks.to_none
+  · exact Or.inl hj
+  · exact Or.inr (Or.inl hj)
+  · exact Or.inr (Or.inr (Or.inl ⟨hj, hx⟩))
+  · exact Or.inr (Or.inr (Or.inr (Or.inl hj)))
+  · exact Or.inr (Or.inr (Or.inr (Or.inr hj)))
+
+/-! ### 8. runs -/
+
+/-- the cell history of key `k` along a run: a chain of `KeyStep`s, each with a cause its event justifies -/
+inductive KeyChain (k : Nat) : State → List (Ev × Oracle) → State → Prop where
+  | nil (s : State) : KeyChain k s [] s
+  | cons {s s1 s' : State} {ev : Ev} {o : Oracle} {l : List (Ev × Oracle)} (why : Why) :
+      KeyStep (abs s).now (abs s1).now why ((abs s).cells k) ((abs s1).cells k) → Justified s ev k why →
+      KeyChain k s1 l s' → KeyChain k s ((ev, o) :: l) s'
+
+/-- **run_refines**: along every run from a reachable state every key's cell history is a chain of justified
+    `KeyStep`s. -/
+theorem run_refines {cfg : Cfg} {now : Nat} {seeds : List Nat} :
+    ∀ (l : List (Ev × Oracle)) {s s' : State}, Reach cfg now seeds s → runEvents s l = .ok s' →
+      ∀ k, KeyChain k s l s' := by
+  intro l
+  induction l with
+  | nil => intro s s' _ h k; simp only [runEvents, Except.ok.injEq] at h; subst h; exact .nil s
+  | cons x l ih =>
+    intro s s' hr h k
+    obtain ⟨ev, o⟩ := x
+    simp only [runEvents] at h
+    split at h
+    · rename_i s1 out o1 hs
+      obtain ⟨why, hks, hj⟩ := refines_reach hr hs k
+      exact .cons why hks hj (ih (Reach.step hr hs) h k)
+    · cases h
+
+/-- a use of `run_refines`: a key without a cell at the start of a run and with one at its end — some event of the
+    run is a worker step (client calls alone never make a key readable: they only queue commands) -/
+theorem KeyChain.needs_worker {k : Nat} {s s' : State} {l : List (Ev × Oracle)} (h : KeyChain k s l s')
+    (h0 : (abs s).cells k = none) {x : Cell} (h1 : (abs s').cells k = some x) :
+    ∃ p ∈ l, p.1 = Ev.worker := by
+  induction h with
+  | nil s => rw [h0] at h1; cases h1
+  | @cons s s1 s' ev o l why hks hj _ ih =>
+    cases hc1 : (abs s1).cells k with
+    | none =>
+      obtain ⟨p, hp, hw⟩ := ih hc1 h1
+      exact ⟨p, List.mem_cons_of_mem _ hp, hw⟩
+    | some y =>
+      rw [h0, hc1] at hks
+      rcases hks.to_some with ⟨_, hc, _⟩ | ⟨v, ttl, rfl, _, _, _⟩ | ⟨c0, _, _, _, _, hc, _⟩
+      · cases hc
+      · exact ⟨(ev, o), List.mem_cons_self, hj.1⟩
+      · cases hc
+
+/-! ### 9. non-vacuity: every cause on a concrete run -/
+
+def specCfg : Cfg := { maxWeight := 100, shards := 2, cmdCap := 4, poolSize := 1, bufSize := 1, counters := 2 }
+
+/-- clock 5 s -/
+def specInit : State := State.init specCfg 5000000000 [1, 2, 3, 4]
+
+def oE : Oracle := {}
+
+/-- `put_with_weight_and_ttl(1 ↦ 10, weight 5, ttl 10 s)` called -/
+def specCall : List (Ev × Oracle) := [(.putWTtl 0 1 10 5 10000000000, oE)]
+
+/-- … and applied by the worker: cell `⟨10, deadline 15 s⟩` -/
+def specPut : List (Ev × Oracle) := specCall ++ [(.worker, oE)]
+
+/-- the step `ev` (with oracle `o`) from `s` succeeds and moves the cell of `k` for the cause `why`, justified -/
+def Exhibits (s : State) (ev : Ev) (o : Oracle) (k : Nat) (why : Why) : Prop :=
+  ∃ s' out o', step s ev o = .ok (s', out, o') ∧
+    KeyStep (abs s).now (abs s').now why ((abs s).cells k) ((abs s').cells k) ∧ Justified s ev k why
+
+/-- `installed` -/
+example : ∃ s, runEvents specInit specCall = .ok s ∧ Exhibits s .worker oE 1 (.installed 10 (some 10000000000)) := by
+  refine ⟨_, rfl, _, _, _, rfl, ?_, ?_⟩
+  · exact KeyStep.installed 10 (some 10000000000) rfl
+  · exact ⟨rfl, 5, rfl, _, _, _, _, rfl⟩
+
+/-- `rewritten`: new value, time-to-live removed -/
+example : ∃ s, runEvents specInit specPut = .ok s ∧
+    Exhibits s (.upsert 0 1 (some 11) none none true) oE 1 (.rewritten (some 11) none true) := by
+  refine ⟨_, rfl, _, _, _, rfl, ?_, ?_⟩
+  · exact KeyStep.rewritten ⟨10, some 15000000000⟩ (some 11) none true rfl
+  · exact ⟨0, none, rfl⟩
+
+/-- `rewritten`: value kept, new time-to-live 3 s from now (deadline 8 s) -/
+example : ∃ s s' out o', runEvents specInit specPut = .ok s ∧
+    step s (.upsert 0 1 none none (some 3000000000) false) oE = .ok (s', out, o') ∧
+    KeyStep (abs s).now (abs s').now (.rewritten none (some 3000000000) false) ((abs s).cells 1) ((abs s').cells 1) ∧
+    (abs s').cells 1 = some ⟨10, some 8000000000⟩ := by
+  refine ⟨_, _, _, _, rfl, rfl, ?_, rfl⟩
+  exact KeyStep.rewritten ⟨10, some 15000000000⟩ none (some 3000000000) false rfl
+
+/-- `hidden` -/
+example : ∃ s, runEvents specInit specPut = .ok s ∧ Exhibits s (.delete 0 1) oE 1 .hidden := by
+  refine ⟨_, rfl, _, _, _, rfl, ?_, ?_⟩
+  · exact KeyStep.hidden ⟨10, some 15000000000⟩ rfl
+  · exact ⟨0, rfl⟩
+
+/-- `expiredRemoved`: clock 17 s, past the deadline 15 s -/
+example : ∃ s, runEvents specInit (specPut ++ [(.advance 12000000000, oE)]) = .ok s ∧
+    Exhibits s .sweep oE 1 .expiredRemoved := by
+  refine ⟨_, rfl, _, _, _, rfl, ?_, ?_⟩
+  · exact KeyStep.expiredRemoved ⟨10, some 15000000000⟩ rfl rfl
+  · exact rfl
+
+/-- `evicted`: a put of weight 98 does not fit beside key 1 (weight 5, limit 100) -/
+example : ∃ s, runEvents specInit (specPut ++ [(.putW 0 2 20 98, oE)]) = .ok s ∧
+    Exhibits s .worker { dk := [false, false], ids := [1], pops := [some 1] } 1 .evicted := by
+  refine ⟨_, rfl, _, _, _, rfl, ?_, ?_⟩
+  · exact KeyStep.evicted ⟨10, some 15000000000⟩ rfl
+  · exact ⟨rfl, 2, 20, none, 98, ⟨rfl, _, _, _, _, rfl⟩, by decide⟩
+
+/-- `cleared` -/
+example : ∃ s, runEvents specInit specPut = .ok s ∧ Exhibits s (.shutdown 7) oE 1 .cleared := by
+  refine ⟨_, rfl, _, _, _, rfl, ?_, ?_⟩
+  · exact KeyStep.cleared _ rfl
+  · exact Or.inl ⟨7, rfl⟩
+
+/-- `deleted` (point 1 of the head of this file): `put(1)` called, `delete(1)` called, the worker applies the put — key 1
+    is READABLE although `delete(1)` has returned — then the worker runs `Delete(1)` -/
+example : ∃ s, runEvents specInit [(.putW 0 1 10 5, oE), (.delete 0 1, oE), (.worker, oE)] = .ok s ∧
+    (abs s).read 1 = some 10 ∧ Exhibits s .worker oE 1 .deleted := by
+  refine ⟨_, rfl, rfl, _, _, _, rfl, ?_, ?_⟩
+  · exact KeyStep.deleted ⟨10, none⟩ rfl
+  · exact ⟨rfl, rfl, _, _, rfl⟩
+
+/-- `unchanged` although the STORE changes: `put_or_update` of a soft-deleted key rewrites the dead entry in place
+    (value 99); readers see nothing before and nothing after -/
+example : ∃ s s' out o', runEvents specInit (specPut ++ [(.delete 0 1, oE)]) = .ok s ∧
+    step s (.upsert 0 1 (some 99) none none false) oE = .ok (s', out, o') ∧
+    s.store.get? 1 = some ⟨10, 1, some 15000000000, true⟩ ∧ s'.store.get? 1 = some ⟨99, 1, some 15000000000, true⟩ ∧
+    KeyStep (abs s).now (abs s').now .unchanged ((abs s).cells 1) ((abs s').cells 1) ∧
+    (abs s).read 1 = none ∧ (abs s').read 1 = none := by
+  refine ⟨_, _, _, _, rfl, rfl, by decide, by decide, ?_, by decide, by decide⟩
+  exact KeyStep.unchanged none (Nat.le_refl _)
+
+/-- **The last disjunct of `no_foreign_value` is needed** (finding): key 1 has expired (clock 17 s, deadline 15 s), no
+    sweep has visited it, a read reports absent; `put_or_update(1, remove_time_to_live)` — carrying NO value — makes
+    the old value 10 readable again. -/
+theorem no_foreign_value_resurrection :
+    ∃ s s' out o', runEvents specInit (specPut ++ [(.advance 12000000000, oE)]) = .ok s ∧
+      step s (.upsert 0 1 none none none true) oE = .ok (s', out, o') ∧
+      (abs s).read 1 = none ∧ (abs s').read 1 = some 10 ∧
+      (abs s).cells 1 = some ⟨10, some 15000000000⟩ ∧ (abs s').cells 1 = some ⟨10, none⟩ := by
+  refine ⟨_, _, _, _, rfl, rfl, ?_, ?_, ?_, ?_⟩ <;> decide
+
+/-- point 3 of the head of this file: key 1 has expired and is not swept — a read reports absent — yet
+    `put_with_weight(1 ↦ 77)` is refused on the spot with `KeyAlreadyExists`; no cell changes -/
+example : ∃ s s' h o', runEvents specInit (specPut ++ [(.advance 12000000000, oE)]) = .ok s ∧
+    step s (.putW 0 1 77 5) oE = .ok (s', .ack h (.rejected .keyAlreadyExists), o') ∧
+    (abs s).read 1 = none ∧ (abs s').cells 1 = (abs s).cells 1 := by
+  refine ⟨_, _, _, _, rfl, rfl, ?_, ?_⟩ <;> decide
+
+/-- `reads_agree` on a concrete state: `get` / `multi_get` answer `S.read` / `S.readMany` -/
+example : ∃ s, runEvents specInit specPut = .ok s ∧
+    (abs s).read 1 = some 10 ∧ (abs s).readMany [2, 1] = [none, some 10] ∧
+    (∃ s1 o1, step s (.get 1) { pool := [0] } = .ok (s1, .value (some 10), o1)) ∧
+    (∃ s2 o2, step s (.multiGet [2, 1]) { pool := [0] } = .ok (s2, .values [none, some 10], o2)) := by
+  refine ⟨_, rfl, ?_, ?_, ⟨_, _, rfl⟩, ⟨_, _, rfl⟩⟩ <;> decide
+
+/-- `multi_get` after `shutdown()`: the empty list -/
+example : ∃ s s2 o2, runEvents specInit (specPut ++ [(.shutdown 7, oE)]) = .ok s ∧
+    step s (.multiGet [2, 1]) oE = .ok (s2, .values [], o2) ∧ (abs s).readMany [2, 1] = [] :=
+  ⟨_, _, _, rfl, rfl, rfl⟩
+
+/-- `run_refines` instantiated: the whole history of key 1 along a run through put, upsert, delete, worker steps,
+    a clock move and a sweep is a chain of justified `KeyStep`s -/
+example : ∃ s', KeyChain 1 specInit
+    (specPut ++ [(.upsert 0 1 (some 11) none none false, oE), (.worker, oE), (.delete 0 1, oE), (.worker, oE),
+      (.advance 12000000000, oE), (.sweep, oE)]) s' :=
+  ⟨_, run_refines _ (Reach.init (cfg := specCfg) (now := 5000000000) (seeds := [1, 2, 3, 4])) rfl 1⟩
+
+/-- the hypotheses of `refines` / the corollaries hold at the states used above (they are reachable) -/
+example (s : State) (h : runEvents specInit specPut = .ok s) : TtlInv s ∧ QInv s := by
+  have hr : Reach specCfg 5000000000 [1, 2, 3, 4] s := reach_runEvents _ Reach.init h
+  exact ⟨ttlinv_reach hr, qinv_of_reach hr⟩
 
 end Cached.Spec
